@@ -70,10 +70,47 @@ theorem header_carve_out (e : UInt64) (m : Nat) :
     (headerEnd64 e).toNat = headerEnd e.toNat ∧ (m < headerEnd e.toNat ↔ m + blockHashLag < e.toNat) :=
   ⟨headerEnd64_toNat e, lt_headerEnd_iff m e.toNat⟩
 
-/-- Aggregated bloom filters: only whole windows strictly below the range end are deleted. -/
-theorem bloom_windows_kept (e a : Nat) (h : aggEnd e = some a) :
-    a ≤ e ∧ a % numBlocksPerFilter = 0 ∧ e < a + numBlocksPerFilter :=
-  aggEnd_spec e a h
+/-- Aggregated bloom filters, for ANY range end — window-aligned or not: `pruneAggregatedBloomFiltersUpto(e)`
+deletes the persisted filter of window `w` iff the window lies ENTIRELY below `e` (its last block
+`w*8192+8191 < e`). In particular the window that contains an unaligned `e` (it indexes the retained
+blocks `e ..`) is kept. -/
+theorem bloom_windows_kept (e w : Nat) :
+    aggDeleted e w = true ↔ (w + 1) * numBlocksPerFilter ≤ e :=
+  aggDeleted_iff e w
+
+/-- Which persisted windows exist, in every reachable state: exactly the complete windows (last block
+at or below the head) that are not entirely below the durable floor — so the window holding an
+unaligned floor survives as long as it is complete. -/
+theorem bloom_windows_survive (c : Cfg) (s : St) (R : Reach c s) (h : Nat) (hh : s.db.height = some h) (w : Nat) :
+    s.db.agg w = true ↔ (lo s.db / numBlocksPerFilter ≤ w ∧ (w + 1) * numBlocksPerFilter ≤ h + 1) := by
+  have I := inv_reach R
+  unfold Inv at I; rw [hh] at I; obtain ⟨a, IA⟩ := I
+  rw [lo_of_inv hh IA]; exact IA.aggIff w
+
+/-- Consequences for retained blocks: an event query from any block at or above the durable floor finds
+every persisted window it reads (all windows of `[n, head]` but the running one), and reverting the head
+back across a window boundary above the floor finds the window it re-opens. -/
+theorem bloom_windows_for_retained (c : Cfg) (s : St) (R : Reach c s) (h : Nat) (hh : s.db.height = some h) :
+    (∀ n, lo s.db ≤ n → n ≤ h → windowsOk s.db n h = true) ∧
+    (effFloor s < h → revertFilterOk s.db h = true) := by
+  have I := inv_reach R
+  unfold Inv at I; rw [hh] at I; obtain ⟨a, IA⟩ := I
+  rw [lo_of_inv hh IA]
+  refine ⟨fun n h1 h2 => windowsOk_of_inv IA n h1 h2, ?_⟩
+  intro hL
+  unfold revertFilterOk
+  by_cases hb : (h + 1) % numBlocksPerFilter = 0
+  · have := (IA.aggIff (h / numBlocksPerFilter)).mpr (by
+      have := IA.ale; unfold numBlocksPerFilter at *; omega)
+    simp [this]
+  · simp [hb]
+
+/-- The closed form the driver starts long chains from IS the node after `k` stores. -/
+theorem bulk_is_k_stores (c : Cfg) (k : Nat) (h0 : 0 < k) (hk : k < 2 ^ 64) :
+    let s := run c St.init (List.replicate k .store)
+    s.db.height = (Db.bulk k).height ∧ (∀ i m, s.db.has i m = (Db.bulk k).has i m) ∧
+      (∀ w, s.db.agg w = (Db.bulk k).agg w) ∧ s.db.l1 = (Db.bulk k).l1 ∧ s.mem = St.init.mem ∧ s.job = .idle :=
+  bulk_eq_stores c k h0 hk
 
 /-! ## floor_monotone -/
 
@@ -275,5 +312,8 @@ example : l1Keep { origCfg with retained := 2 } 0 10 5 = some 3 := by decide
 example : l2Guard { origCfg with retained := 2 } 9 5 = false ∧ l2Keep { origCfg with retained := 2 } 0 5 false = 3 := by decide
 example : headerEnd64 12 = 2 ∧ headerEnd64 10 = 0 ∧ headerEnd64 3 = 0 := by decide
 example : findOldestAtOrAfter (fun n => 10 * n) 0 9 35 = some 4 := by decide
+-- unaligned range end inside window 1: window 0 goes, window 1 (it indexes retained blocks) stays
+example : aggDeleted 8242 0 = true ∧ aggDeleted 8242 1 = false ∧ aggDeleted 50 0 = false ∧ aggDeleted 16384 1 = true := by
+  decide
 
 end Juno.C16.Props
